@@ -821,3 +821,17 @@ func retResults(ret *ssa.Return) []ssa.Value {
 	}
 	return out
 }
+
+// firstNonPhi returns the first non-phi instruction of a block (the walker's Visit hook is not
+// called for phis).
+func firstNonPhi(b *ssa.BasicBlock) ssa.Instruction {
+	if b == nil {
+		return nil
+	}
+	for _, x := range b.Instrs {
+		if _, isPhi := x.(*ssa.Phi); !isPhi {
+			return x
+		}
+	}
+	return nil
+}
